@@ -155,7 +155,19 @@ Proof.
     destruct c as [le [|] et em]; vm_compute; reflexivity.
 Qed.
 
-Lemma prop_case_raw c ty dsz :
+Ltac prop_case_compute :=
+  cbn [classify_pr_data];
+  match goal with
+  | |- context [assoc_s ?k ?t] => let v := eval vm_compute in (assoc_s k t) in change (assoc_s k t) with v
+  end;
+  cbn [elfclass c_is64]; unfold gen_prop_cases;
+  cbn [switch_case String.eqb Ascii.eqb Bool.eqb andb];
+  repeat match goal with
+         | |- context [Z.eqb ?a ?b] => destruct (Z.eqb_spec a b); try lia; subst
+         end; cbn [andb]; try reflexivity; try discriminate; try lia.
+
+(* a type that is not a bit-mask type, and not a stack size of native width: no Switch case *)
+Lemma prop_case_raw_other c ty dsz :
   is_word_prop ty = false ->
   ((ty =? GNU_PROPERTY_STACK_SIZE) && (dsz =? Z.of_nat (native (scfg_of c))))%bool = false ->
   prop_case c ty dsz = None.
@@ -167,24 +179,35 @@ Proof.
   cbn [spec_prop_types dict_get].
   destruct (Z.eqb_spec 1 ty) as [E|E].
   { subst ty. rewrite Z.eqb_refl in Hs. cbn [andb] in Hs.
-    destruct c as [le [|] et em]; cbn [native scfg_of s_is64 c_is64] in Hs;
-      cbn [classify_pr_data];
-      match goal with
-      | |- context [assoc_s ?k ?t] => let v := eval vm_compute in (assoc_s k t) in change (assoc_s k t) with v
-      end;
-      cbn [elfclass c_is64]; unfold gen_prop_cases;
-      cbn [switch_case String.eqb Ascii.eqb Bool.eqb andb];
-      repeat match goal with
-             | |- context [Z.eqb ?a ?b] => destruct (Z.eqb_spec a b); try lia; subst
-             end; cbn [andb]; try reflexivity; try discriminate; try lia. }
+    destruct c as [le [|] et em]; cbn [native scfg_of s_is64 c_is64] in Hs; prop_case_compute. }
   destruct (Z.eqb_spec 2 ty) as [E2|E2].
-  { subst ty. destruct c as [le [|] et em]; vm_compute; reflexivity. }
+  { subst ty. destruct c as [le [|] et em]; prop_case_compute. }
   destruct (Z.eqb_spec 3221225474 ty) as [E3|E3]; [subst ty; discriminate|].
   destruct (Z.eqb_spec 3221258242 ty) as [E4|E4]; [subst ty; discriminate|].
   destruct (Z.eqb_spec 3221291009 ty) as [E5|E5]; [subst ty; discriminate|].
   destruct (Z.eqb_spec 3221291010 ty) as [E6|E6]; [subst ty; discriminate|].
   destruct (Z.eqb_spec 3221225472 ty) as [E7|E7]; [subst ty; discriminate|].
   reflexivity.
+Qed.
+
+(* a bit-mask type that declares a size other than 4: no Switch case either (raw bytes) *)
+Lemma prop_case_word_other c ty dsz : is_word_prop ty = true -> dsz <> 4 -> prop_case c ty dsz = None.
+Proof.
+  unfold is_word_prop. cbn [existsb word_prop_types]. intros H Hd.
+  unfold prop_case, name_of. destruct prop_type_table as [-> _].
+  split_orb H; try discriminate; apply Z.eqb_eq in H; subst ty;
+    cbn [spec_prop_types dict_get Z.eqb Pos.eqb];
+    destruct c as [le [|] et em]; prop_case_compute.
+Qed.
+
+Lemma prop_case_raw c ty dsz :
+  (is_word_prop ty && (dsz =? 4))%bool = false ->
+  ((ty =? GNU_PROPERTY_STACK_SIZE) && (dsz =? Z.of_nat (native (scfg_of c))))%bool = false ->
+  prop_case c ty dsz = None.
+Proof.
+  intros Hw Hs. destruct (is_word_prop ty) eqn:Hw0.
+  - cbn [andb] in Hw. apply prop_case_word_other; [exact Hw0|]. apply Z.eqb_neq. exact Hw.
+  - apply prop_case_raw_other; assumption.
 Qed.
 
 Lemma word_prop_u32 ty : is_word_prop ty = true -> in_urange 4 ty = true.
